@@ -179,7 +179,7 @@ func (p *commitStore) getCommitForCommitKey(
 	}
 	if !externalCommit.isValid() {
 		invalidReason = "invalid"
-		return nil, err
+		return nil, errors.New("invalid commit file")
 	}
 	digest, err := bufmodule.ParseDigest(externalCommit.Digest)
 	if err != nil {
@@ -188,7 +188,7 @@ func (p *commitStore) getCommitForCommitKey(
 	}
 	if commitKey.DigestType() != digest.Type() {
 		invalidReason = "mismatched digest type"
-		return nil, err
+		return nil, fmt.Errorf("commit file has digest type %v, expected %v", digest.Type(), commitKey.DigestType())
 	}
 	moduleFullName, err := bufparse.NewFullName(
 		commitKey.Registry(),
